@@ -144,9 +144,25 @@ def reachable_values(E, st, vals):
     return out
 
 
+def no_drop_glue(st):
+    """this path runs only for element types without drop glue: `needs_drop::<(A, B)>()` answered false for a PAIR
+    type (the slots of every container of the crate hold pairs; needs_drop::<V>() or ::<K>() alone says nothing
+    about the other half and is not accepted).  Destroying such an element is a no-op, so leaving it is no leak."""
+    for e in st.events:
+        if e and e[0] == 'assume' and len(e) == 3 and e[2] is False and isinstance(e[1], tuple) \
+                and e[1][:1] == ('needs_drop',):
+            ty = e[1][1]
+            if isinstance(ty, dict) and ty.get('k') == 'tuple' and len(ty.get('elems') or ()) == 2:
+                return True
+    return False
+
+
 def check_dropall(E, st, mid, prim):
     """after Drop::drop of a container: exactly its live elements were destroyed"""
     m2 = st.maps[mid]
+    if no_drop_glue(st):
+        E.oblig('DROPALL', True, prim, '', sample='no drop glue on this path: %s' % m2.describe())
+        return
     z = st.zone
     lo, hi = m2.hole_rng
     allgone = (z.entails_eq(lo, 0) and z.entails_eq(hi, m2.len) and not m2.holes) or z.entails_eq(m2.len, 0)
@@ -205,7 +221,7 @@ def exit_checks(E, st, kind, retval, is_drop_root=False):
         # the owning handle is gone after this call: whatever it still owned -- whether or not its cursor
         # has passed over it -- must have been destroyed or moved out
         for mid, ms in st.maps.items():
-            if ms.owned_extras and not ms.dead and not slots.empty(st.zone, ms.extra_rng):
+            if ms.owned_extras and not ms.dead and not slots.empty(st.zone, ms.extra_rng) and not no_drop_glue(st):
                 E.oblig('HANDLE-DROP', False, 'Drop::drop',
                         'the owning handle is destroyed while elements it owns are still live: %s' % ms.describe(),
                         'unproven', sample=ms.describe())
@@ -220,7 +236,7 @@ def exit_checks(E, st, kind, retval, is_drop_root=False):
         if z.entails_le(bk, fr):
             continue
         if is_drop_root and ms.owned_extras and not unw:
-            E.oblig('HANDLE-DROP', slots.empty(z, ms.extra_rng), 'Drop::drop',
+            E.oblig('HANDLE-DROP', slots.empty(z, ms.extra_rng) or no_drop_glue(st), 'Drop::drop',
                     'the owning handle is destroyed while it still owns live elements [%s,%s): %s'
                     % (fr, bk, ms.describe()), 'unproven', sample=ms.describe())
             continue
